@@ -153,7 +153,7 @@ ClassificationOK(op, sub, fq, A, B, allowStale) ==
                   /\ ELeft(p) /\ ERt(p) # 0 /\ ps[1][1] # ps[2][1]
                   /\ ps[1][1] <= e[2]
                   /\ (e[2] <= ps[2][1] \/ allowStale)              \* allowStale: it WAS below when an ancestor recorded it
-                  /\ Orient(ps[1], ps[2], EPt(e)) >= 0
+                  /\ (e[2] <= ps[2][1] => Orient(ps[1], ps[2], EPt(e)) >= 0)   \* (the extension of an edge that has ended says nothing)
                   /\ EPir(e) # i
 
 \* ------------------------------------------------------------------ C15
